@@ -4,6 +4,7 @@ import (
 	"fmt"
 	"os"
 	"testing"
+	. "verifharness/hist"
 
 	"github.com/google/reftable"
 	"pgregory.net/rapid"
@@ -22,10 +23,10 @@ const (
 )
 
 type c07Op struct {
-	Kind int `json:"op"`
+	Kind int  `json:"op"`
 	Tx   *HTx `json:"tx,omitempty"`
-	A    int `json:"a,omitempty"`
-	B    int `json:"b,omitempty"`
+	A    int  `json:"a,omitempty"`
+	B    int  `json:"b,omitempty"`
 }
 
 type c07Case struct {
@@ -40,7 +41,7 @@ func genHistory(t *rapid.T, minOps, maxOps int, delWeight int) c07Case {
 	c.Cfg.SkipNameCheck = rapid.Bool().Draw(t, "skipname")
 	c.Auto = rapid.Bool().Draw(t, "auto")
 	n := rapid.IntRange(minOps, maxOps).Draw(t, "nops")
-	o := TxOpts{Pool: safePool[:rapid.IntRange(2, len(safePool)).Draw(t, "npool")], MaxRefs: 4, MaxLogs: 3,
+	o := TxOpts{Pool: SafePool[:rapid.IntRange(2, len(SafePool)).Draw(t, "npool")], MaxRefs: 4, MaxLogs: 3,
 		HashSize: c.Cfg.HashSize(), Exact: c.Cfg.Exact, DelWeight: delWeight}
 	for i := 0; i < n; i++ {
 		op := c07Op{}
